@@ -990,6 +990,44 @@ def r16_pairing(idx, r):
     pairing_rule(idx, r, ["armi.nucDirectory", "armi.materials"], 80)
 
 
+def r18_blend_range_ends_and_critical_point(idx, r):
+    """(a) the class1/class2 isotopics blend renormalises every heavy-metal nuclide the MATERIAL holds, not only those of the two feeds
+    (clause of R18.12): a nuclide in neither feed otherwise keeps its old fraction and the composition sums to more than one.
+    (b) Material.checkTempRange accepts both ends of a stated range (`minT <= val <= maxT`): the upper limit is part of the range.
+    (c) Sodium's density has a square root of (1 - T / Tcrit): over the stated range of the density it must not go negative, i.e. Tcrit is not
+    below the upper limit of that range (compared exactly, as decimal numbers)."""
+    from fractions import Fraction
+    from ..report import Only
+    from .c18 import r12_skips_mixes_and_refused_maps as r12_modification_scope
+    r12_modification_scope(idx, Only(r, ["isotopics-mix"]))
+    f = idx.method("armi.materials.material.Material", "checkTempRange")
+    cmp_ = [x for x in ast.walk(f.node) if isinstance(x, ast.Compare) and len(x.ops) == 2]
+    if len(cmp_) != 1:
+        raise AnchorMissing("checkTempRange: minT <= val <= maxT")
+    r.require(all(isinstance(o, (ast.LtE, ast.GtE)) for o in cmp_[0].ops), "checkTempRange:both-limits-are-in-range", f, node=cmp_[0],
+              msg=f"`{norm(cmp_[0])}` excludes a stated limit: a property evaluated exactly at the limit of its own validity range is reported (or, in strict mode, refused) as out of range")
+    so = idx.cls("armi.materials.sodium.Sodium")
+    pd = so.methods.get("pseudoDensity")
+    rng = next((st for st in so.node.body if isinstance(st, ast.Assign) and norm(st.targets[0]) == "propertyValidTemperature"), None)
+    if pd is None or rng is None:
+        raise AnchorMissing("Sodium.pseudoDensity / propertyValidTemperature")
+    tc = next((s_.value for s_ in iter_stores(pd.node) if s_.kind == "assign" and isinstance(s_.node, ast.Name) and s_.node.id.lower() == "tcrit" and isinstance(s_.value, ast.Constant)), None)
+    dens = next((v for k_, v in zip(rng.value.keys, rng.value.values) if const_str(k_) == "density"), None)
+    if tc is None or dens is None:
+        raise AnchorMissing("Sodium: Tcrit constant / density range")
+    segs = {}
+    txt = idx.read(so.module.relpath)
+    import re as _re
+    def lit(node):
+        seg = ast.get_source_segment(txt, node)
+        return Fraction(seg) if seg and _re.fullmatch(r"[0-9.]+", seg) else Fraction(str(node.value))
+    hi = lit(dens.elts[0].elts[1])
+    unit = const_str(dens.elts[1])
+    hiK = hi + Fraction("273.15") if unit == "C" else hi
+    r.require(lit(tc) >= hiK, "Sodium.pseudoDensity:critical-temperature-not-below-the-range", pd,
+              msg=f"Tcrit = {float(lit(tc))} K lies below the upper limit of the stated density range ({float(hiK)} K): near the top of the range the square root is taken of a negative number and the density is complex")
+
+
 def run(idx, chk):
     chk.explanation = (
         "C19: nuclides.dat, elements.dat, burn-chain.yaml and mcc-nuclides.yaml are parsed as data and linted exhaustively (unique (Z,A,S), N=A-Z, "
@@ -1031,3 +1069,5 @@ def run(idx, chk):
                  necessary="Tk and Tc are handed to the parameter of their unit")
     chk.run_rule("R19.17", "a nuclide class hashes the attributes it orders by; the three B4C fractions are stored together", lambda r: r17_identity_keys_and_complete_compositions(idx, r), floor=4,
                  necessary="each nuclide belongs to its element; compositions sum to one")
+    chk.run_rule("R19.18", "the isotopics blend covers the material's nuclides (R18.12); both range limits are in range; Sodium's critical temperature bounds its density range", lambda r: r18_blend_range_ends_and_critical_point(idx, r), floor=3,
+                 necessary="compositions sum to one; every property is defined (finite, real) over its stated range")
